@@ -104,6 +104,14 @@ def catalogue(tier: str = "quick") -> List[Entry]:
         Entry("ChainMap[str, Optional[date]]", collections.ChainMap[str, O[D.date]], "chainmap", "optconv"),
         Entry("list[list[date]]", list[list[D.date]], "list", "nested"), Entry("dict[str, list[Optional[date]]]", dict[str, list[O[D.date]]], "dict", "nested"),
     ]
+    U = typing.Unpack
+    out += [
+        Entry("tuple[int, *tuple[date, ...], str]", tuple[int, U[tuple[D.date, ...]], str], "unpacktuple", "conv"),
+        Entry("tuple[int, *tuple[date, ...]]", tuple[int, U[tuple[D.date, ...]]], "unpacktuple", "conv"),
+        Entry("tuple[*tuple[date, ...], int]", tuple[U[tuple[D.date, ...]], int], "unpacktuple", "conv"),
+        Entry("tuple[*tuple[int, ...]]", tuple[U[tuple[int, ...]]], "unpacktuple", "trivial"),
+        Entry("tuple[int, int, *tuple[date, ...], str, str]", tuple[int, int, U[tuple[D.date, ...]], str, str], "unpacktuple", "conv"),
+    ]
     out += [
         Entry("Counter[str]", collections.Counter[str], "counter", "trivial"), Entry("typing.Counter[str]", typing.Counter[str], "counter", "trivial"),
         Entry("dict[date, int]", dict[D.date, int], "dict", "convkey"),
